@@ -153,6 +153,11 @@ func c01GenValid(r *vf.Rand, form string, forceAlg string) (c01Valid, error) {
 		}
 	}
 	useKid := r.Intn(3) == 0 || n > 1 && r.Bool()
+	// several signers of heterogeneous header shapes (see c02hetero.go), identified by kid
+	hetero := form == "general" && n > 1 && r.Bool()
+	if hetero {
+		useKid = true
+	}
 	finder := c01Finder{Mode: "fixed"}
 	if useKid {
 		finder = c01Finder{Mode: "kid", Kids: map[string]c01KeyRef{}}
@@ -165,7 +170,9 @@ func c01GenValid(r *vf.Rand, form string, forceAlg string) (c01Valid, error) {
 			kid = fmt.Sprintf("k%d", i)
 		}
 		s := c01GenSigner(r, a, kid)
-		if form != "compact" && form != "jwt" && r.Intn(4) == 0 {
+		if hetero {
+			s = c02HetSigner("ABCDE"[r.Intn(5)], a, i, r.Intn(8))
+		} else if form != "compact" && form != "jwt" && r.Intn(4) == 0 {
 			s.Unprot = map[string]any{"x-unprot": "u" + fmt.Sprint(i)}
 			if r.Intn(3) == 0 {
 				// alg only in the unprotected header: next to a protected header without alg, or
@@ -213,6 +220,9 @@ func c01GenValid(r *vf.Rand, form string, forceAlg string) (c01Valid, error) {
 	}
 	kind := map[string]string{"compact": "jws-compact", "jwt": "jwt", "flat": "jws-json", "general": "jws-json"}[form]
 	cs := c01Case{Kind: kind, Data: data, Configured: true, Allowed: allowed, Finder: finder, Tag: "valid-" + via + "-" + form}
+	if hetero {
+		cs.Tag += "-hetero"
+	}
 	if form == "compact" && sp.NB64 && bytes.IndexByte(sp.Payload, '.') >= 0 {
 		cs.HasContent, cs.Content = true, sp.Payload // detached by the serialiser: verify with the content
 	}
